@@ -1,11 +1,12 @@
 """
 C20 - options mean the same whether given on the command line or in a config file.  Claimed narrowly:
   R20.1 single ingestion path (one ArgumentParser, config parsers only as its config_file_parser_class, validator installed)
-  R20.2 unknown keys are warned about and dropped; known keys are forwarded under the spelling that was looked up
+  R20.2 unknown keys are warned about and dropped (the INI parser hands them on before any skip or evaluation); known keys are forwarded under the
+        spelling that was looked up
   R20.3 dest / attrs-field agreement
-  R20.4 format siblings (TOML and INI parsers stringify alike, turn parser errors into ConfigFileParserException)
+  R20.4 format siblings (TOML and INI parsers stringify alike, turn parser errors into ConfigFileParserException); a TOML value is left out only when it is None
   R20.5 quoting: a quoted INI value is never split into a list; quotes are evaluated by unquote_str
-  R20.6 TOML is tried before INI
+  R20.6 TOML is tried before INI, *.ini / *.cfg by name the other way round; the shared parser list is written by the constructor only
 Does not decide: that any particular value survives quoting (a function of runtime strings).
 """
 from __future__ import annotations
